@@ -1,7 +1,7 @@
 """C25 Shortest-path zones compute minimal routes: see DESIGN.md section 4 (C25), spec/routing/ShortestPath.tla (+ Hier.tla).
 
 Random connected graphs (3..30 nodes, hosts and routers, one-hop routes of 1..3 links, symmetrical or not, split-duplex
-links, explicit loopbacks); the same graph is built as a Floyd, a Dijkstra, a DijkstraCache and a Full zone:
+links, explicit loopbacks; six graphs out of eight are small (5..9 nodes), dense, with one-hop routes of 1..6 links); the same graph is built as a Floyd, a Dijkstra, a DijkstraCache and a Full zone:
   G  TLC (HierMC) computes the minimal link count of every pair (DIST) and explores every minimal chain (M);
   T  every returned route must be a chain of declared one-hop routes taken on a minimal chain (HierTrace), its number of
      links must be TLC's minimum, the three algorithms must agree, Full must return exactly the declared route;
@@ -23,12 +23,17 @@ KINDS = ["floyd", "dijkstra", "dijkstracache", "full"]
 
 def run(ctx):
     quick = ctx.quick
-    ngraphs = 10 if quick else 100
+    ngraphs = 56 if quick else 240
     plats = []
     groups = []
     for k in range(ngraphs):
         rng = random.Random("C25/%d/%s/%d" % (ctx.seed, ctx.tier, k))
-        g = R.gen_graph(rng, nmax=(8, 14, 20, 30)[k % 4] if quick else 30)
+        if k % 8 >= 2:
+            # small dense graphs whose one-hop routes have 1..6 links: many chains of different hop counts and costs, so that
+            # the cost of a node is lowered after it was first reached (the order of expansion of Dijkstra matters)
+            g = R.gen_graph(rng, nmax=9, nmin=5, maxlinks=6, dense=True)
+        else:
+            g = R.gen_graph(rng, nmax=(8, 14, 20, 30)[k % 4] if quick else 30)
         grp = []
         for kind in KINDS:
             plats.append(R.plat_from_graph(kind, g, "g%d-%s" % (k, kind)))
